@@ -15,6 +15,10 @@ The model follows the tensor code branch by branch:
   `masked_scatter_` (rows get back as many triples as their mask has true cells), and the
   boundary shift `chunked[..., 1:] += slices[..., 0]` — **plus**, as in the code.
 
+* the per-utterance worker of `chunk-torch-spect-data-dir` (`dirSlices`, `dirChunks`): the slicer on
+  the unsqueezed utterance (`N = 1`, no lengths) and the token chunker on the utterance's tokens
+  expanded against its slices.
+
 Tensors are lists, boolean-mask indexing is `select`, `nonzero` lists indices in row-major
 order. Integer positions are `Int` (windows may start before 0), indices are `Nat`.
 
@@ -289,5 +293,38 @@ def chunkTokens (partialOk retain : Bool) (refs : List (List Tok)) (slices : Lis
   let rows := splitLens chunkedLens flat
   let shifted := List.zipWith (fun row (sl : Int × Int) => row.map (shiftTok retain sl.1)) rows slices
   (shifted, chunkedLens)
+
+/-! ## `command_line._chunk_torch_spect_data_dir_do_work`: what is written for one utterance -/
+
+inductive Policy where
+  | fixed | ali | ref
+  deriving Repr, DecidableEq
+
+/-- One utterance of a data directory: `T` frames of features, the per-frame alignment, the token
+segments. -/
+structure Utt where
+  T : Nat
+  ali : List Int
+  ref : List Tok
+
+/-- `slicer(feats)` / `slicer(alis)` / `slicer(refs)` on the unsqueezed utterance (`N = 1`, no
+lengths), `valid_only = (pad_mode is None)`. -/
+def dirSlices (policy : Policy) (wt : WinType) (validOnly : Bool) (lobe : Nat) (u : Utt) :
+    Except Err (List Win) :=
+  match policy with
+  | .fixed => sliceSpectData (.feats 1 u.T) none none wt validOnly lobe
+  | .ali => sliceSpectData (.ali 1 u.T [u.ali]) none none wt validOnly lobe
+  | .ref => sliceSpectData (.ref 1 u.ref.length [u.ref]) none none wt validOnly lobe
+
+/-- The chunks of one utterance: `ref_chunker(refs.expand(M, ...), slices)` — the utterance's tokens
+against each of its `M` slices — and chunk `n` is written under slice `n`'s name. (Features and
+alignments go through `ChunkBySlices`, property C09.) -/
+def dirChunks (policy : Policy) (wt : WinType) (validOnly : Bool) (lobe : Nat) (partialOk retain : Bool)
+    (u : Utt) : Except Err (List (Win × List Tok)) :=
+  match dirSlices policy wt validOnly lobe u with
+  | .error e => .error e
+  | .ok ws =>
+    .ok (List.zip ws
+      (chunkTokens partialOk retain (List.replicate ws.length u.ref) (ws.map fun w => (w.start, w.stop)) none).1)
 
 end PdtVerif.Slicing
